@@ -92,4 +92,28 @@ def vpscCmd (f : List String) : Option String :=
       some s!"vpsc same={okQ same} feasible={okQ feas} n={I.vars.length} m={I.cons.length} flagged={unsat.length} blocks={st.list.size} pending={if pending then 1 else 0}"
   | _ => none
 
+/-- `vpscr|vars|cons|ps&ps&…|x|returnedCost|unsat` — the same for a solver object that is solved, given new desired positions
+(`setDesiredPositions`) and solved again, once per list `ps`: what the LAST solve returns must be EQUAL -/
+def vpscrCmd (f : List String) : Option String :=
+  match f with
+  | [vars, cons, pss, x, rc, unsat] => do
+    let I : Inst := { vars := ← parseList ";" parseVar vars, cons := ← parseList ";" parseCon cons }
+    let pss ← (pss.splitOn "&").mapM (parseList "," parseRat)
+    let x ← parseList "," parseRat x
+    let rc ← parseRat rc
+    let unsat ← parseList "," parseNat unsat
+    let st0 := Vpsc.init (I.vars.map fun v => (v.d, v.w, v.s)) (I.cons.map fun c => (c.l, c.r, c.g))
+    let r := Vpsc.resolve 400 (200 * (I.cons.length + I.vars.length) + 1000) st0 pss
+    let st := r.1
+    if st.err then some s!"vpscr same=na feasible=na n={I.vars.length} m={I.cons.length} flagged={unsat.length} blocks=0 solves={pss.length + 1}"
+    else
+      let mx := Vpsc.positions st
+      let same := mx == x && r.2 == rc && Vpsc.flagged st == unsat
+      let Iun : Inst := { I with cons := (I.cons.zipIdx.filter (fun p => !(Vpsc.flagged st).contains p.2)).map (·.1) }
+      let feas := feasibleB Iun (-Gen.zeroUpperBound) mx
+      let lam := Vpsc.multipliers st
+      let pending := lam.any (fun l => decide (l < Gen.lagrangianTolerance))
+      some s!"vpscr same={okQ same} feasible={okQ feas} n={I.vars.length} m={I.cons.length} flagged={unsat.length} blocks={st.list.size} pending={if pending then 1 else 0} solves={pss.length + 1}"
+  | _ => none
+
 end Labella.Driver
